@@ -95,5 +95,9 @@ func opBaseGasCall(op operation, gt params.GasTable, evm *EVM, contract *Contrac
 	if err != nil {
 		return 0, err
 	}
+	// The callee is metered against the same per-transaction budget; its frame starts with what is
+	// left of it. (Leaving callGasTemp at zero made every CREATE inside a called contract fail to
+	// pay for its code deposit.)
+	evm.callGasTemp = evm.gasLeft
 	return gas, nil
 }
